@@ -291,7 +291,7 @@ async def scenario(case: dict[str, Any], out: dict[str, Any]) -> None:
     # ---- class-level use
     for a in list(attr_ev)[:2]:
         decl = getattr(cls, a)
-        for how in ("dispatch", "stream", "wait"):
+        for how in ("dispatch", "stream", "wait", "stream-function", "wait-function", "stream-function-mixed"):
             inc("unbound_uses")
             try:
                 if how == "dispatch":
@@ -299,9 +299,19 @@ async def scenario(case: dict[str, Any], out: dict[str, Any]) -> None:
                 elif how == "stream":
                     async with decl.stream_events():
                         pass
-                else:
+                elif how == "wait":
                     with anyio.move_on_after(1):
                         await decl.wait_event()
+                else:
+                    # the same through the module-level functions, alone or after a properly bound signal
+                    from asphalt.core import stream_events as _se, wait_event as _we
+
+                    if how == "wait-function":
+                        with anyio.move_on_after(1):
+                            await _we([decl])
+                    else:
+                        async with _se(([next(iter(bound.values()))] if how.endswith("mixed") else []) + [decl]):
+                            pass
             except UnboundSignal:
                 continue
             except Exception as e:
